@@ -2437,14 +2437,14 @@ m("C15", "refactor-fallback-name-format", "zpt/template.py",
   '''    return "%s@%x" % (repr(value), id(value))''',
   '''    return "{!r}@{:x}".format(value, id(value))''', expect="silent")
 m("C03", "pi-name-leading-word-only", "parser.py",
-  r'''    r'^<\?(?P<name>[\w.:-]+)(?P<text>.*?)\?>', re.DOTALL)''',
+  r'''    r'^<\?(?P<name>[^\s?]+)(?P<text>.*?)\?>', re.DOTALL)''',
   r'''    r'^<\?(?P<name>\w+)(?P<text>.*?)\?>', re.DOTALL)''')
 m("C03", "pi-name-without-colon", "parser.py",
-  r'''    r'^<\?(?P<name>[\w.:-]+)(?P<text>.*?)\?>', re.DOTALL)''',
+  r'''    r'^<\?(?P<name>[^\s?]+)(?P<text>.*?)\?>', re.DOTALL)''',
   r'''    r'^<\?(?P<name>[\w.-]+)(?P<text>.*?)\?>', re.DOTALL)''')
 m("C03", "refactor-pi-name-class-respelled", "parser.py",
-  r'''    r'^<\?(?P<name>[\w.:-]+)(?P<text>.*?)\?>', re.DOTALL)''',
-  r'''    r'^<\?(?P<name>[-:.\w]+)(?P<text>.*?)\?>', re.DOTALL)''',
+  r'''    r'^<\?(?P<name>[^\s?]+)(?P<text>.*?)\?>', re.DOTALL)''',
+  r'''    r'^<\?(?P<name>[^?\s]+)(?P<text>.*?)\?>', re.DOTALL)''',
   expect="silent")
 m("C09", "macro-lookup-replaces-hyphen-only", "zpt/template.py",
   '''        name = mangle(name)
@@ -2609,3 +2609,9 @@ m("C15", "refactor-filename-length-prefixed", "template.py",
   """        name_bytes = filename.encode('utf-8', 'surrogatepass')
         sha.update(b'%d:' % len(name_bytes) + name_bytes + b'\\n')""",
   expect="silent")
+
+
+# ---- fix cc8d6e2: the target of a processing instruction up to the blank
+m("C03", "pi-name-word-characters-only", "parser.py",
+  r"""    r'^<\?(?P<name>[^\s?]+)(?P<text>.*?)\?>', re.DOTALL)""",
+  r"""    r'^<\?(?P<name>[\w.:-]+)(?P<text>.*?)\?>', re.DOTALL)""")
